@@ -77,7 +77,10 @@ func genC13(r *rand.Rand, t *Trace, thorough bool) {
 		if thorough && it%25 == 0 {
 			ntrain = p.nlist + r.Intn(500-p.nlist)
 		}
-		o := vecHistOpts{nops: 8 + r.Intn(30), trainFirst: it%10 != 0, ntrain: ntrain, allowReuse: it%3 == 1, allowDup: it%4 == 2}
+		o := vecHistOpts{nops: 8 + r.Intn(30), trainFirst: it%10 != 0, ntrain: ntrain, allowReuse: it%3 == 1, allowDup: it%4 == 2, fine: it%3 == 0}
+		if o.fine && it%2 == 0 {
+			p.dim = 1 + r.Intn(2) // few coordinates: near-duplicate points are frequent
+		}
 		c := runVecHistory(r, p, o, t)
 		t.Emit(c, "ivf.metric."+string(metrics[p.metric]))
 	}
